@@ -328,29 +328,11 @@ func ReplayWALFile(path string, handler EntryHandler) (*RecoveryStats, error) {
 			// Check if this is a corruption error
 			if strings.Contains(err.Error(), "corrupt") ||
 				strings.Contains(err.Error(), "invalid") {
-				// Skip this corrupted entry
+				// Record boundaries are unknown behind a damaged record:
+				// resuming anywhere would parse data bytes as records. Keep
+				// everything before the damage and stop reading this file
 				stats.EntriesSkipped++
-
-				// If we've seen too many corrupted entries in a row, give up on this file
-				if stats.EntriesSkipped > 5 && stats.EntriesProcessed == 0 {
-					return stats, fmt.Errorf("too many corrupted entries at start of file %s", path)
-				}
-
-				// Try to recover by scanning ahead
-				// This is a very basic recovery mechanism that works by reading bytes
-				// until we find what looks like a valid header
-				recoverErr := recoverFromCorruption(reader)
-				if recoverErr != nil {
-					if recoverErr == io.EOF {
-						// Reached the end during recovery
-						break
-					}
-					// Couldn't recover
-					return stats, fmt.Errorf("failed to recover from corruption in %s: %w", path, recoverErr)
-				}
-
-				// Successfully recovered, continue to the next entry
-				continue
+				break
 			}
 
 			// For other errors, fail the replay
@@ -366,24 +348,6 @@ func ReplayWALFile(path string, handler EntryHandler) (*RecoveryStats, error) {
 	}
 
 	return stats, nil
-}
-
-// recoverFromCorruption attempts to recover from a corrupted record by scanning ahead
-func recoverFromCorruption(reader *Reader) error {
-	// Create a small buffer to read bytes one at a time
-	buf := make([]byte, 1)
-
-	// Read up to 32KB ahead looking for a valid header
-	for i := 0; i < 32*1024; i++ {
-		_, err := reader.reader.Read(buf)
-		if err != nil {
-			return err
-		}
-	}
-
-	// At this point, either we're at a valid position or we've skipped ahead
-	// Let the next ReadEntry attempt to parse from this position
-	return nil
 }
 
 // ReplayWALDir replays all WAL files in the given directory in order
